@@ -686,7 +686,10 @@ def run(ctx: Ctx):
     ctx.stats.rule = (
         "cases = (payload sizes, tamper op, chunking into reads): boundary single frames, multi-frame streams with "
         "19-byte tail frames, exhaustive 2-cut chunkings of short streams, byte-at-a-time, random tamper scripts (mock "
-        "AEAD, model vs HAPCrypto), random real-ChaCha streams vs the reference codec, and HAPServerProtocol-level runs. "
+        "AEAD, model vs HAPCrypto), many (17..513) frames in one read, random real-ChaCha streams vs the reference codec, "
+        "HAPServerProtocol-level runs, the plaintext->secure upgrade boundary with leftover parser bytes, and re-keying "
+        "(second pair-verify inside the session; frames of the new key from counter 0, of the superseded key, of the new "
+        "key with the old counter; mock runs compared with the model's `rekey`). "
         "Non-trivial = more than one frame or more than one read or a tamper op; distinct by sizes, tamper, chunking."
     )
     ctx.assumptions.append("host is little-endian (Struct('H') is native order): " + sys.byteorder)
